@@ -10,8 +10,8 @@ EXTENDS Integers, Sequences, FiniteSets, TLC
 
 Abs(x)  == IF x < 0 THEN -x ELSE x
 Sign(x) == IF x > 0 THEN 1 ELSE IF x < 0 THEN -1 ELSE 0
-Max(a, b) == IF a >= b THEN a ELSE b
-Min(a, b) == IF a <= b THEN a ELSE b
+Max2(a, b) == IF a >= b THEN a ELSE b
+Min2(a, b) == IF a <= b THEN a ELSE b
 
 RECURSIVE GcdP(_, _)
 GcdP(a, b) == IF b = 0 THEN a ELSE GcdP(b, a % b)      \* a, b >= 0
